@@ -18,6 +18,45 @@ pub open spec fn scan(p: Seq<char>, k: int) -> (int, bool)
 // k is a position where a pattern may be cut: outside every group and not between a backslash and the char it escapes
 pub open spec fn boundary(p: Seq<char>, k: int) -> bool { 0 <= k <= p.len() && scan(p, k) == (0int, false) }
 
+// a common prefix longer than the first mismatch does not exist
+pub proof fn lemma_common_prefix_bound(l: Seq<char>, r: Seq<char>, i: int, m: int)
+    requires 0 <= i < l.len(), i < r.len(), l[i] != r[i], 0 <= m <= l.len(), m <= r.len(), l.take(m) == r.take(m),
+    ensures m <= i,
+{
+    if m > i { assert(l.take(m)[i] == l[i]); assert(r.take(m)[i] == r[i]); }
+}
+// the scanner state at k only depends on the first k characters
+pub proof fn lemma_scan_prefix(p: Seq<char>, q: Seq<char>, k: int)
+    requires 0 <= k <= p.len(), k <= q.len(), p.take(k) == q.take(k),
+    ensures scan(p, k) == scan(q, k),
+    decreases k,
+{
+    if k > 0 {
+        assert(p.take(k - 1) =~= p.take(k).take(k - 1));
+        assert(q.take(k - 1) =~= q.take(k).take(k - 1));
+        lemma_scan_prefix(p, q, k - 1);
+        assert(p[k - 1] == p.take(k)[k - 1]);
+        assert(q[k - 1] == q.take(k)[k - 1]);
+    }
+}
+pub proof fn lemma_chars_le_bytes(s: Seq<char>)
+    ensures s.len() <= vstd::utf8::encode_utf8(s).len(),
+    decreases s.len(),
+{
+    if s.len() > 0 {
+        lemma_chars_le_bytes(s.drop_last());
+        vstd::utf8::encode_utf8_concat(s.drop_last(), seq![s.last()]);
+        assert(s =~= s.drop_last() + seq![s.last()]);
+        assert(vstd::utf8::encode_utf8(seq![s.last()]).len() >= 1);
+    }
+}
+pub proof fn lemma_prefix_bytes_le(s: Seq<char>, n: int)
+    requires 0 <= n <= s.len(),
+    ensures vstd::utf8::encode_utf8(s.take(n)).len() <= vstd::utf8::encode_utf8(s).len(),
+{
+    vstd::utf8::encode_utf8_concat(s.take(n), s.skip(n));
+    assert(s =~= s.take(n) + s.skip(n));
+}
 //@@ item src/regex_radix_tree/prefix.rs :: macro_rules next_char_or_return
 
 // R8 outlined expression: Vec<char> -> String through FromIterator (assumed: same characters)
@@ -32,12 +71,16 @@ pub fn outl_collect_chars(prefix: Vec<char>) -> (r: String)
 //@@ fn src/regex_radix_tree/prefix.rs :: fn common_prefix_char_size -> n
 //@| requires left@.len() < 0x7fff_ffff,
 //@| ensures n <= left@.len(), n <= right@.len(), left@.take(n as int) == right@.take(n as int), boundary(left@, n as int),
+//@|     // maximal: no longer common prefix is cut at a boundary
+//@|     forall|m: int| 0 <= m <= left@.len() && m <= right@.len() && left@.take(m) == right@.take(m) && boundary(left@, m) ==> m <= n,
 //@| loop 0: invariant left@.len() < 0x7fff_ffff, 0 <= i <= left@.len(), i <= right@.len(),
+//@|         forall|m: int| 0 <= m <= i && boundary(left@, m) ==> m <= prefix_length,
 //@|         left_chars.remaining() == left@.skip(i as int), right_chars.remaining() == right@.skip(i as int),
 //@|         left@.take(i as int) == right@.take(i as int),
 //@|         scan(left@, i as int) == (group_level as int, was_escape), -(i as int) <= group_level <= i,
 //@|         prefix_length <= i, boundary(left@, prefix_length as int), left@.take(prefix_length as int) == right@.take(prefix_length as int),
 //@|     decreases left@.len() - i,
+//@| before `return prefix_length;`: proof { assert(left_char == left@[i as int] && right_char == right@[i as int]); assert forall|m: int| 0 <= m <= left@.len() && m <= right@.len() && left@.take(m) == right@.take(m) && boundary(left@, m) implies m <= prefix_length by { lemma_common_prefix_bound(left@, right@, i as int, m); } }
 
 //@@ fn src/regex_radix_tree/prefix.rs :: fn get_prefix_with_char_size -> r
 //@| ensures r@ == str@.take(if size as int <= str@.len() { size as int } else { str@.len() as int }),
@@ -51,6 +94,7 @@ pub fn outl_collect_chars(prefix: Vec<char>) -> (r: String)
 //@@ fn src/regex_radix_tree/prefix.rs :: fn common_prefix -> r
 //@| requires left@.len() < 0x7fff_ffff,
 //@| ensures r@.len() <= left@.len(), r@.len() <= right@.len(), r@ == left@.take(r@.len() as int), r@ == right@.take(r@.len() as int), boundary(left@, r@.len() as int),
+//@|     forall|m: int| 0 <= m <= left@.len() && m <= right@.len() && left@.take(m) == right@.take(m) && boundary(left@, m) ==> m <= r@.len(),
 
 // ================================================================ regex.rs (LazyRegex) — foreign crate `regex` is a shim
 use std::sync::Arc;
@@ -158,6 +202,8 @@ pub open spec fn item_pat<V>(it: Item<V>) -> Seq<char> {
 pub open spec fn item_ic<V>(it: Item<V>) -> bool {
     match it { Item::Empty(ic) => ic, Item::Node(n) => n.regex.ignore_case, Item::Leaf(l) => l.regex.ignore_case }
 }
+// patterns are shorter than 2^31 BYTES (domain restriction: i32 / u32 counters and the `len() as u32` cast in Node::insert)
+pub open spec fn pat_ok(p: Seq<char>) -> bool { vstd::utf8::encode_utf8(p).len() < 0x7fff_ffff }
 // well-formedness: regexes are leaf/node regexes of their `original`, cache coherent, one case flag throughout, every child of a
 // node carries the node's prefix as a boundary prefix of its own pattern
 pub open spec fn wf<V>(it: Item<V>) -> bool
@@ -165,9 +211,10 @@ pub open spec fn wf<V>(it: Item<V>) -> bool
 {
     match it {
         Item::Empty(_) => true,
-        Item::Leaf(l) => lr_ok(*l.regex) && l.regex.original@.len() > 0 && l.regex.regex@ == leaf_re(l.regex.original@),
+        Item::Leaf(l) => lr_ok(*l.regex) && l.regex.original@.len() > 0 && l.regex.regex@ == leaf_re(l.regex.original@) && pat_ok(l.regex.original@)
+            && l.values@.len() > 0 && l.values@.dom().finite(),
         Item::Node(n) => {
-            &&& lr_ok(*n.regex) && n.regex.regex@ == node_re(n.regex.original@)
+            &&& lr_ok(*n.regex) && n.regex.regex@ == node_re(n.regex.original@) && pat_ok(n.regex.original@)
             &&& forall|i: int| 0 <= i < n.children@.len() ==> {
                     &&& wf(#[trigger] n.children@[i])
                     &&& !(n.children@[i] is Empty)
@@ -360,6 +407,287 @@ impl<V> Item<V> {
     //@| ensures wf(*final(self)), same_obs(*final(self), *old(self)), r <= left,
     //@| decreases *old(self), 1int,
     //@| entry proof { lemma_same_obs_refl(*self); }
+}
+
+// ================================================================ stored content and mutators (C08 rest, C02)
+pub type LeafV<V> = (Seq<char>, Map<String, V>);
+// the stored content: one (pattern, id -> value map) per leaf, as a multiset (tree shape and child order are irrelevant)
+pub open spec fn leaves_ms<V>(it: Item<V>) -> Multiset<LeafV<V>>
+    decreases it
+{
+    match it {
+        Item::Empty(_) => Multiset::empty(),
+        Item::Leaf(l) => Multiset::singleton((l.regex.original@, l.values@)),
+        Item::Node(n) => leaves_children(n.children@, n.children@.len() as int),
+    }
+}
+pub open spec fn leaves_children<V>(cs: Seq<Item<V>>, k: int) -> Multiset<LeafV<V>>
+    decreases cs, k
+{ if k <= 0 || k > cs.len() { Multiset::empty() } else { leaves_children(cs, k - 1).add(leaves_ms(cs[k - 1])) } }
+// number of stored values
+pub open spec fn count<V>(it: Item<V>) -> nat
+    decreases it
+{
+    match it { Item::Empty(_) => 0, Item::Leaf(l) => l.values@.len(), Item::Node(n) => count_children(n.children@, n.children@.len() as int) }
+}
+pub open spec fn count_children<V>(cs: Seq<Item<V>>, k: int) -> nat
+    decreases cs, k
+{ if k <= 0 || k > cs.len() { 0 } else { count_children(cs, k - 1) + count(cs[k - 1]) } }
+
+impl<V> Leaf<V> {
+    //@@ fn src/regex_radix_tree/leaf.rs :: impl <V>Leaf<V> / fn len -> r
+    //@| ensures r == count(Item::Leaf(*self)),
+    //@| entry broadcast use vstd::std_specs::hash::group_hash_axioms; broadcast use axiom_string_key_model;
+
+    //@@ fn src/regex_radix_tree/leaf.rs :: impl <V>Leaf<V> / fn is_empty -> r
+    //@| ensures r == (count(Item::Leaf(*self)) == 0),
+    //@| entry broadcast use vstd::std_specs::hash::group_hash_axioms; broadcast use axiom_string_key_model;
+
+    //@@ fn src/regex_radix_tree/leaf.rs :: impl <V>Leaf<V> / fn regex -> r
+    //@| ensures r@ == self.regex.original@,
+}
+impl<V> Node<V> {
+    //@@ fn src/regex_radix_tree/node.rs :: impl <V>Node<V> / fn len -> r
+    //@| requires count(Item::Node(*self)) <= usize::MAX,
+    //@| ensures r == count(Item::Node(*self)),
+    //@| decreases self, 0int,
+    //@| forlabel 0: it
+    //@| loop 0: invariant iter_ref_ok(it.history@, it.index@, it.snapshot@.remaining(), self.children@), count == count_children(self.children@, it.index@),
+    //@|         count_children(self.children@, self.children@.len() as int) <= usize::MAX,
+    //@| loophead 0: proof { assert(*child == self.children@[it.index@ as int]); lemma_count_mono(self.children@, it.index@ + 1, self.children@.len() as int); }
+
+    //@@ fn src/regex_radix_tree/node.rs :: impl <V>Node<V> / fn is_empty -> r
+    //@| ensures r == (count(Item::Node(*self)) == 0),
+    //@| decreases self, 0int,
+    //@| forlabel 0: it
+    //@| loop 0: invariant iter_ref_ok(it.history@, it.index@, it.snapshot@.remaining(), self.children@), count_children(self.children@, it.index@) == 0,
+    //@| loophead 0: proof { assert(*child == self.children@[it.index@ as int]); }
+    //@| before `return false;`: proof { lemma_count_mono(self.children@, it.index@ + 1, self.children@.len() as int); }
+
+    //@@ fn src/regex_radix_tree/node.rs :: impl <V>Node<V> / fn regex -> r
+    //@| ensures r@ == self.regex.original@,
+}
+pub proof fn lemma_count_mono<V>(cs: Seq<Item<V>>, a: int, b: int)
+    requires 0 <= a <= b <= cs.len(),
+    ensures count_children(cs, a) <= count_children(cs, b),
+    decreases b - a,
+{ if a < b { lemma_count_mono(cs, a, b - 1); } }
+impl<V> Item<V> {
+    //@@ fn src/regex_radix_tree/item.rs :: impl <V>Item<V> / fn len -> r
+    //@| requires count(*self) <= usize::MAX,
+    //@| ensures r == count(*self),
+    //@| decreases self, 1int,
+
+    //@@ fn src/regex_radix_tree/item.rs :: impl <V>Item<V> / fn is_empty -> r
+    //@| ensures r == (count(*self) == 0),
+    //@| decreases self, 1int,
+
+    //@@ fn src/regex_radix_tree/item.rs :: impl <V>Item<V> / fn regex -> r
+    //@| ensures r@ == item_pat(*self),
+    //@| entry proof { lit_empty(); }
+}
+
+// ---------------------------------------------------------------- insert
+pub open spec fn ins_law<V>(old: Multiset<LeafV<V>>, new: Multiset<LeafV<V>>, p: Seq<char>, id: String, v: V) -> bool {
+    // the value is stored into an existing leaf of that pattern (replacing a previous value of the same id) ...
+    (exists|m: Map<String, V>| #[trigger] old.count((p, m)) > 0 && new == old.remove((p, m)).insert((p, m.insert(id, v))))
+    // ... or a new leaf holding just this value is added; nothing else changes
+    || new == old.insert((p, Map::<String, V>::empty().insert(id, v)))
+}
+pub open spec fn ins_post<V>(old: Item<V>, r: Item<V>, p: Seq<char>, id: String, v: V) -> bool {
+    &&& wf(r) && !(r is Empty) && item_ic(r) == item_ic(old)
+    &&& ins_law(leaves_ms(old), leaves_ms(r), p, id, v)
+    &&& count(r) <= count(old) + 1
+    // any common boundary prefix of the old item and of the new pattern is still a boundary prefix of the result's pattern
+    &&& forall|q: Seq<char>| (old is Empty || bprefix(q, item_pat(old))) && bprefix(q, p) ==> #[trigger] bprefix(q, item_pat(r))
+}
+pub assume_specification [std::string::String::len] (s: &std::string::String) -> (r: usize) ensures r == vstd::utf8::encode_utf8(s@).len();
+pub assume_specification [<str as PartialEq>::eq] (a: &str, b: &str) -> (r: bool) ensures r == (a@ == b@);
+
+impl<V> Leaf<V> {
+    //@@ fn src/regex_radix_tree/leaf.rs :: impl <V>Leaf<V> / fn new -> r
+    //@| requires regex@.len() > 0, pat_ok(regex@),
+    //@| ensures wf(Item::Leaf(r)), r.regex.original@ == regex@, r.regex.ignore_case == ignore_case, r.values@ == Map::<String, V>::empty().insert(id, item),
+    //@| entry broadcast use vstd::std_specs::hash::group_hash_axioms; broadcast use axiom_string_key_model;
+
+    //@@ fn src/regex_radix_tree/leaf.rs :: impl <V>Leaf<V> / fn insert -> r
+    //@| requires wf(Item::Leaf(self)), regex@.len() > 0, pat_ok(regex@),
+    //@| ensures ins_post(Item::Leaf(self), r, regex@, id, item),
+    //@| entry broadcast use vstd::std_specs::hash::group_hash_axioms; broadcast use axiom_string_key_model;
+    //@|     let ghost old_it = Item::Leaf(self); let ghost p0 = self.regex.original@; let ghost m0 = self.values@; let ghost p = regex@;
+    //@|     proof { lemma_chars_le_bytes(p0); lemma_chars_le_bytes(p); }
+    //@| before `return Item::Leaf(self);`: proof {
+    //@|     let ms0 = leaves_ms(old_it); let ms1 = leaves_ms(Item::Leaf(this));
+    //@|     assert(ms0.count((p, m0)) > 0);
+    //@|     assert(ms1 =~= ms0.remove((p, m0)).insert((p, m0.insert(id, item))));
+    //@|     lemma_map_insert_len_le(m0, id, item);
+    //@| }
+    //@| before `Item::Node(Node {`: proof {
+    //@|     let n = prefix@.len() as int;
+    //@|     lemma_scan_prefix(p0, p, n);
+    //@|     lemma_prefix_bytes_le(p0, n);
+    //@|     assert(bprefix(prefix@, p0) && bprefix(prefix@, p));
+    //@|     lemma_map_insert_len_le(Map::<String, V>::empty(), id, item);
+    //@|     assert(wf(leaf) && wf(old_it));
+    //@|     lemma_pair_node(old_it, leaf, prefix@, this.regex.ignore_case);
+    //@|     assert(leaves_ms(leaf) == Multiset::singleton((p, Map::<String, V>::empty().insert(id, item))));
+    //@|     assert(leaves_ms(old_it).add(leaves_ms(leaf)) =~= leaves_ms(old_it).insert((p, Map::<String, V>::empty().insert(id, item))));
+    //@|     // maximality of the common prefix: a common boundary prefix of both patterns is not longer than `prefix`
+    //@|     assert forall|q: Seq<char>| bprefix(q, p0) && bprefix(q, p) implies q.len() <= prefix@.len() by { assert(p0.take(q.len() as int) == p.take(q.len() as int)); }
+    //@| }
+}
+pub proof fn lemma_map_insert_len_le<K, V>(m: Map<K, V>, k: K, v: V)
+    requires m.dom().finite(),
+    ensures m.insert(k, v).len() <= m.len() + 1, m.insert(k, v).len() >= 1, m.insert(k, v).dom().finite(),
+{
+    assert(m.insert(k, v).dom() =~= m.dom().insert(k));
+}
+// everything about the two-child node built when a leaf is split (Leaf::insert) or a node gets a new parent (Node::insert)
+pub open spec fn is_pair_node<V>(n: Node<V>, a: Item<V>, b: Item<V>, prefix: Seq<char>, ic: bool) -> bool {
+    n.children@.len() == 2 && n.children@[0] == a && n.children@[1] == b && lr_ok(*n.regex) && n.regex.regex@ == node_re(prefix)
+        && n.regex.original@ == prefix && n.regex.ignore_case == ic
+}
+pub proof fn lemma_pair_node<V>(a: Item<V>, b: Item<V>, prefix: Seq<char>, ic: bool)
+    requires wf(a), wf(b), !(a is Empty), !(b is Empty), item_ic(a) == ic, item_ic(b) == ic,
+        bprefix(prefix, item_pat(a)), bprefix(prefix, item_pat(b)), pat_ok(prefix),
+    ensures
+        forall|n: Node<V>| #![trigger wf(Item::Node(n))] #![trigger leaves_ms(Item::Node(n))] #![trigger count(Item::Node(n))]
+            is_pair_node(n, a, b, prefix, ic) ==> wf(Item::Node(n)) && leaves_ms(Item::Node(n)) == leaves_ms(a).add(leaves_ms(b))
+            && count(Item::Node(n)) == count(a) + count(b),
+        // any common boundary prefix q of both patterns that is not longer than `prefix` is a boundary prefix of `prefix`
+        forall|q: Seq<char>| bprefix(q, item_pat(a)) && bprefix(q, item_pat(b)) && q.len() <= prefix.len() ==> #[trigger] bprefix(q, prefix),
+{
+    assert forall|n: Node<V>| is_pair_node(n, a, b, prefix, ic) implies #[trigger] wf(Item::Node(n)) && leaves_ms(Item::Node(n)) == leaves_ms(a).add(leaves_ms(b))
+            && count(Item::Node(n)) == count(a) + count(b) by {
+        let cs = n.children@;
+        assert(leaves_children(cs, 2) == leaves_children(cs, 1).add(leaves_ms(cs[1])));
+        assert(leaves_children(cs, 1) == leaves_children(cs, 0).add(leaves_ms(cs[0])));
+        assert(leaves_children(cs, 0) =~= Multiset::<LeafV<V>>::empty());
+        assert(Multiset::<LeafV<V>>::empty().add(leaves_ms(a)) =~= leaves_ms(a));
+        assert(count_children(cs, 2) == count_children(cs, 1) + count(cs[1]));
+        assert(count_children(cs, 1) == count_children(cs, 0) + count(cs[0]));
+        assert forall|i: int| 0 <= i < cs.len() implies wf(#[trigger] cs[i]) && !(cs[i] is Empty) && item_ic(cs[i]) == ic && bprefix(prefix, item_pat(cs[i])) by { if i == 0 {} else { assert(i == 1); } }
+    }
+    assert forall|q: Seq<char>| bprefix(q, item_pat(a)) && bprefix(q, item_pat(b)) && q.len() <= prefix.len() implies #[trigger] bprefix(q, prefix) by {
+        let k = q.len() as int;
+        let pa = item_pat(a);
+        assert(prefix.take(k) =~= pa.take(prefix.len() as int).take(k));
+        assert(pa.take(prefix.len() as int).take(k) =~= pa.take(k));
+        lemma_scan_prefix(prefix, pa, k);
+    }
+}
+// leaves / count of a child sequence after `remove(i)` then `push(c)` (Node::insert re-attaches the modified child at the end)
+pub proof fn lemma_children_remove<V>(cs: Seq<Item<V>>, i: int)
+    requires 0 <= i < cs.len(),
+    ensures leaves_children(cs, cs.len() as int) == leaves_children(cs.remove(i), cs.len() - 1).add(leaves_ms(cs[i])),
+        count_children(cs, cs.len() as int) == count_children(cs.remove(i), cs.len() - 1) + count(cs[i]),
+    decreases cs.len(),
+{
+    let n = cs.len() as int;
+    if i == n - 1 {
+        assert(cs.remove(i) =~= cs.drop_last());
+        lemma_children_prefix(cs, cs.drop_last(), n - 1);
+    } else {
+        let d = cs.drop_last();
+        lemma_children_remove(d, i);
+        lemma_children_prefix(cs, d, n - 1);
+        assert(cs.remove(i).drop_last() =~= d.remove(i));
+        lemma_children_prefix(cs.remove(i), d.remove(i), n - 2);
+        assert(cs.remove(i)[n - 2] == cs[n - 1]);
+        assert(leaves_children(d.remove(i), n - 2).add(leaves_ms(cs[i])).add(leaves_ms(cs[n - 1])) =~= leaves_children(d.remove(i), n - 2).add(leaves_ms(cs[n - 1])).add(leaves_ms(cs[i])));
+    }
+}
+// the fold over the first k children only looks at those children
+pub proof fn lemma_children_prefix<V>(a: Seq<Item<V>>, b: Seq<Item<V>>, k: int)
+    requires 0 <= k <= a.len(), k <= b.len(), forall|j: int| 0 <= j < k ==> a[j] == b[j],
+    ensures leaves_children(a, k) == leaves_children(b, k), count_children(a, k) == count_children(b, k),
+    decreases k,
+{ if k > 0 { lemma_children_prefix(a, b, k - 1); } }
+pub proof fn lemma_children_push<V>(cs: Seq<Item<V>>, c: Item<V>)
+    ensures leaves_children(cs.push(c), cs.len() as int + 1) == leaves_children(cs, cs.len() as int).add(leaves_ms(c)),
+        count_children(cs.push(c), cs.len() as int + 1) == count_children(cs, cs.len() as int) + count(c),
+{
+    lemma_children_prefix(cs.push(c), cs, cs.len() as int);
+}
+// the insertion law lifts from a child to its parent: parent' = parent - child + child'
+pub proof fn lemma_ins_law_lift<V>(rest: Multiset<LeafV<V>>, c0: Multiset<LeafV<V>>, c1: Multiset<LeafV<V>>, p: Seq<char>, id: String, v: V)
+    requires ins_law(c0, c1, p, id, v),
+    ensures ins_law(rest.add(c0), rest.add(c1), p, id, v),
+{
+    if exists|m: Map<String, V>| #[trigger] c0.count((p, m)) > 0 && c1 == c0.remove((p, m)).insert((p, m.insert(id, v))) {
+        let m = choose|m: Map<String, V>| #[trigger] c0.count((p, m)) > 0 && c1 == c0.remove((p, m)).insert((p, m.insert(id, v)));
+        assert(rest.add(c0).count((p, m)) > 0);
+        assert(rest.add(c1) =~= rest.add(c0).remove((p, m)).insert((p, m.insert(id, v))));
+    } else {
+        assert(rest.add(c1) =~= rest.add(c0).insert((p, Map::<String, V>::empty().insert(id, v))));
+    }
+}
+
+impl<V> Node<V> {
+    //@@ fn src/regex_radix_tree/node.rs :: impl <V>Node<V> / fn insert -> r
+    //@| requires wf(Item::Node(self)), regex@.len() > 0, pat_ok(regex@),
+    //@| ensures ins_post(Item::Node(self), r, regex@, id, item),
+    //@| decreases self, 0int,
+    //@| entry broadcast use vstd::std_specs::hash::group_hash_axioms; broadcast use axiom_string_key_model;
+    //@|     let ghost old_it = Item::Node(self); let ghost p = regex@; let ghost o = self.regex.original@; let ghost ic = self.regex.ignore_case; let ghost cs0 = self.children@;
+    //@|     let ghost newleaf = (p, Map::<String, V>::empty().insert(id, item));
+    //@|     proof { lemma_chars_le_bytes(p); lemma_chars_le_bytes(o); lemma_map_insert_len_le(Map::<String, V>::empty(), id, item); }
+    //@| before `return Item::Node(Node {`: proof {
+    //@|     let n = prefix_size as int;
+    //@|     assert(prefix@ == o.take(n));
+    //@|     lemma_scan_prefix(p, o, n);
+    //@|     lemma_prefix_bytes_le(o, n);
+    //@|     assert(bprefix(prefix@, p) && bprefix(prefix@, o));
+    //@|     assert(wf(left));
+    //@|     lemma_pair_node(left, old_it, prefix@, ic);
+    //@|     assert(leaves_ms(left) == Multiset::singleton(newleaf));
+    //@|     assert(leaves_ms(left).add(leaves_ms(old_it)) =~= leaves_ms(old_it).insert(newleaf));
+    //@|     assert forall|q: Seq<char>| bprefix(q, o) && bprefix(q, p) implies q.len() <= prefix@.len() by { assert(p.take(q.len() as int) == o.take(q.len() as int)); }
+    //@| }
+    //@| loop 0: invariant this.children@ == cs0, *this.regex == *self.regex, wf(old_it), old_it == Item::Node(self), regex@ == p, p.len() < 0x7fff_ffff,
+    //@|         forall|k: usize| max_prefix_item == Some(k) ==> k < cs0.len(),
+    //@| loopend 0: proof {
+    //@|     // the node prefix is a boundary prefix of the new pattern (we are past the split test)
+    //@|     assert(prefix_size as int == o.len());
+    //@|     assert(p.take(o.len() as int) == o.take(o.len() as int));
+    //@|     assert(o.take(o.len() as int) =~= o);
+    //@|     assert(bprefix(o, p));
+    //@| }
+    //@| before `let mut children = self.children.remove(child_index);`: let ghost idx = child_index as int; let ghost c0 = cs0[idx];
+    //@|     proof { assert(wf(c0)); }
+    //@| after `self.children.push(children);`: proof {
+    //@|     let c1 = this.children@.last();
+    //@|     let rest = cs0.remove(idx);
+    //@|     assert(this.children@ =~= rest.push(c1));
+    //@|     lemma_children_remove(cs0, idx);
+    //@|     lemma_children_push(rest, c1);
+    //@|     lemma_ins_law_lift(leaves_children(rest, rest.len() as int), leaves_ms(c0), leaves_ms(c1), p, id, item);
+    //@|     assert(bprefix(o, item_pat(c1)));
+    //@|     assert forall|i: int| 0 <= i < this.children@.len() implies wf(#[trigger] this.children@[i]) && !(this.children@[i] is Empty) && item_ic(this.children@[i]) == ic && bprefix(o, item_pat(this.children@[i])) by {
+    //@|         if i < rest.len() { if i < idx { assert(rest[i] == cs0[i]); } else { assert(rest[i] == cs0[i + 1]); } }
+    //@|     }
+    //@| }
+    //@| after `self.children.push(Item::Leaf(Leaf::new(regex, id, item, self.regex.ignore_case)));`: proof {
+    //@|     let c1 = this.children@.last();
+    //@|     assert(this.children@ =~= cs0.push(c1));
+    //@|     lemma_children_push(cs0, c1);
+    //@|     assert(leaves_ms(c1) == Multiset::singleton(newleaf));
+    //@|     assert(leaves_children(cs0, cs0.len() as int).add(leaves_ms(c1)) =~= leaves_children(cs0, cs0.len() as int).insert(newleaf));
+    //@|     assert forall|i: int| 0 <= i < this.children@.len() implies wf(#[trigger] this.children@[i]) && !(this.children@[i] is Empty) && item_ic(this.children@[i]) == ic && bprefix(o, item_pat(this.children@[i])) by {
+    //@|         if i < cs0.len() { assert(this.children@[i] == cs0[i]); }
+    //@|     }
+    //@| }
+}
+impl<V> Item<V> {
+    //@@ fn src/regex_radix_tree/item.rs :: impl <V>Item<V> / fn insert -> r
+    //@| requires wf(self), regex@.len() > 0, pat_ok(regex@),
+    //@| ensures ins_post(self, r, regex@, id, item),
+    //@| decreases self, 1int,
+    //@| entry proof {
+    //@|     let newleaf = (regex@, Map::<String, V>::empty().insert(id, item));
+    //@|     lemma_map_insert_len_le(Map::<String, V>::empty(), id, item);
+    //@|     assert(Multiset::<LeafV<V>>::empty().insert(newleaf) =~= Multiset::singleton(newleaf));
+    //@| }
 }
 
 //@@ strlits
